@@ -1,8 +1,8 @@
 //! C19 — mempool rewrites (fast-forward, dedup) preserve spend validity and
 //! meaning.
 
-mod dedup;
-mod ff;
+pub mod dedup;
+pub mod ff;
 mod util;
 
 use vcore::engine::{Property, Source, SubCheck};
